@@ -153,6 +153,78 @@ def relay_sites(rel, expected):
     return sites
 
 
+def udp_sites(rel):
+    """the two datagram relay loops of a UDP-over-TCP file:
+    udp -> stream: `loop { (len, _) = udp.recv_from(&mut buf); packet = <encoder>(<slice of buf>); stream.send_data(packet) }`
+    stream -> udp: `loop { payload = read_udp_packet(..); if payload.is_empty() { break }; udp.send_to(<slice of payload>, ..) }`.
+    For each: the direction, the slice handed on, whether the datagram read is awaited bare or under a timer."""
+    src = strip_comments(read(rel))
+    sites = []
+    for start, body in loop_bodies(src):
+        flat = re.sub(r"\s+", "", body)
+        if re.search(r"\.\s*recv_from\s*\(", body):
+            if not re.search(r"\.recv_from\(&mutbuf\)", flat):
+                raise ExtractError(f"{rel}: UDP loop at offset {start}: recv_from does not read into `buf`")
+            if not re.search(r"Ok\(\(len,\w+\)\)=>\(len,\w+\)|let\(len,\w+\)=", flat):
+                raise ExtractError(f"{rel}: UDP loop at offset {start}: the size of the received datagram is not bound to `len`")
+            encs = [(m.group(1), call_arg(body, m.end())) for m in re.finditer(r"\b(encode_udp_packet(?:_simple)?)\s*\(", body)]
+            if len(encs) != 1:
+                raise ExtractError(f"{rel}: UDP loop at offset {start}: expected exactly one encoder call, found {len(encs)}")
+            m = re.search(r"let(\w+)=encode_udp_packet(?:_simple)?\(", flat)
+            if not m:
+                raise ExtractError(f"{rel}: UDP loop at offset {start}: the encoded datagram is not bound to a variable")
+            var = m.group(1)
+            sends = [call_arg(body, x.end()) for x in re.finditer(r"\.\s*send_data\s*\(", body)]
+            if len(sends) != 1 or re.sub(r"\s+", "", sends[0]) not in (var, var + ".clone()"):
+                raise ExtractError(f"{rel}: UDP loop at offset {start}: expected exactly one send_data({var}), found {sends}")
+            if re.search(r"\bcontinue\b", body):
+                raise ExtractError(f"{rel}: UDP loop at offset {start}: a `continue` (datagrams skipped?) is not modelled")
+            a = re.sub(r"\s+", "", encs[0][1])
+            if a == "&buf[..len]":
+                sl = "prefixN"
+            elif re.fullmatch(r"&buf|&buf\[\.\.\]|buf\.as_slice\(\)", a):
+                sl = "whole"
+            else:
+                sl = "other"
+            wrap = "timed" if re.search(r"\btimeout(_at)?\s*\(|select!", body) else "bare"
+            sites.append((rel, "toStream", sl, wrap))
+        elif re.search(r"\bread_udp_packet\s*\(", body):
+            if len(re.findall(r"\bread_udp_packet\s*\(", body)) != 1:
+                raise ExtractError(f"{rel}: UDP loop at offset {start}: expected exactly one read_udp_packet call")
+            if not re.search(r"letpayload=matchread_udp_packet\(&mutreader_guard\)\.await\{", flat):
+                raise ExtractError(f"{rel}: UDP loop at offset {start}: the datagram read is not `let payload = match read_udp_packet(&mut reader_guard).await` (a wrapped read is not modelled)" if not re.search(r"\btimeout(_at)?\s*\(|select!", body) else f"{rel}: UDP loop at offset {start}: unknown shape of a timed datagram read")
+            wrap = "timed" if re.search(r"\btimeout(_at)?\s*\(|select!", body) else "bare"
+            if not re.search(r"ifpayload\.is_empty\(\)\{[^{}]*break;\}", flat):
+                raise ExtractError(f"{rel}: UDP loop at offset {start}: no `if payload.is_empty() {{ break }}`")
+            sends = [call_arg(body, x.end()) for x in re.finditer(r"\.\s*send_to\s*\(", body)]
+            if len(sends) != 1:
+                raise ExtractError(f"{rel}: UDP loop at offset {start}: expected exactly one send_to call, found {len(sends)}")
+            if re.search(r"\bcontinue\b", body):
+                raise ExtractError(f"{rel}: UDP loop at offset {start}: a `continue` (datagrams skipped?) is not modelled")
+            a = re.sub(r"\s+", "", sends[0]).split(",")[0]
+            sl = "whole" if a == "&payload" else "other"
+            sites.append((rel, "toUdp", sl, wrap))
+    if sorted(d for _, d, _, _ in sites) != ["toStream", "toUdp"]:
+        raise ExtractError(f"{rel}: expected one udp->stream and one stream->udp loop, found {[d for _, d, _, _ in sites]}")
+    return sites
+
+
+def udp_bind_rule():
+    """how `handle_udp_over_tcp` chooses the local address of the relay's UDP socket"""
+    src = strip_comments(read("src/server/udp_proxy.rs"))
+    m = one(r"UdpSocket::bind\(([^)]*)\)", src, "server UDP relay: UdpSocket::bind")
+    arg = m.group(1).strip()
+    if arg == '"0.0.0.0:0"':
+        return "anyV4"
+    if arg == '"[::]:0"':
+        return "anyV6"
+    flat = re.sub(r"\s+", "", src)
+    if re.fullmatch(r"\w+", arg) and re.search(
+            r"let" + arg + r'=iftarget_addr\.is_ipv6\(\)\{"\[::\]:0"\}else\{"0\.0\.0\.0:0"\};', flat):
+        return "familyOfTarget"
+    raise ExtractError(f"server UDP relay: bind address `{arg}` is not a modelled rule")
+
+
 def extract():
     g = {}
     # ---- protocol/frame.rs -------------------------------------------------------
@@ -363,6 +435,9 @@ def extract():
     # ---- relay loops (server target relay, SOCKS5 and HTTP front-ends) ---------------------
     g["relaySites"] = (relay_sites("src/server/handler.rs", 2) + relay_sites("src/client/socks5.rs", 2)
                        + relay_sites("src/client/http_proxy.rs", 2))
+    # ---- UDP-over-TCP relay loops and the relay socket's address family ----------------------
+    g["udpSites"] = udp_sites("src/server/udp_proxy.rs") + udp_sites("src/client/udp_client.rs")
+    g["udpBind"] = udp_bind_rule()
     return g
 
 
@@ -468,6 +543,40 @@ def render(g):
     a("def relaySites : List RelaySite := [")
     a(",\n".join(f"  ⟨{lean_str(f)}, .{w}, .{sl}⟩" for f, w, sl in g["relaySites"]))
     a("]")
+    a("")
+    a("inductive UdpDir where")
+    a("  | toStream   -- socket -> tunnel stream: `recv_from`, encode, `send_data`")
+    a("  | toUdp      -- tunnel stream -> socket: `read_udp_packet`, `send_to`")
+    a("  deriving DecidableEq, Repr")
+    a("")
+    a("/-- how the loop awaits the next datagram of the stream -/")
+    a("inductive ReadWrap where")
+    a("  | bare       -- the read is awaited to completion")
+    a("  | timed      -- the read sits under a timer or a `select!` (it can be dropped half-way)")
+    a("  deriving DecidableEq, Repr")
+    a("")
+    a("/-- `slice`: for `toStream` the part of the receive buffer given to the encoder after a datagram of `len` bytes")
+    a("(`prefixN` = `&buf[..len]`); for `toUdp` the part of the decoded payload given to `send_to` (`whole` = `&payload`) -/")
+    a("structure UdpSite where")
+    a("  file : String")
+    a("  dir : UdpDir")
+    a("  slice : SliceKind")
+    a("  wrap : ReadWrap")
+    a("  deriving DecidableEq, Repr")
+    a("")
+    a("/-- the four datagram relay loops (server, client), in source order -/")
+    a("def udpSites : List UdpSite := [")
+    a(",\n".join(f"  ⟨{lean_str(f)}, .{d}, .{sl}, .{w}⟩" for f, d, sl, w in g["udpSites"]))
+    a("]")
+    a("")
+    a("/-- local address of the server relay's UDP socket -/")
+    a("inductive BindRule where")
+    a("  | anyV4            -- always `0.0.0.0:0`")
+    a("  | anyV6            -- always `[::]:0`")
+    a("  | familyOfTarget   -- `[::]:0` for an IPv6 target, `0.0.0.0:0` otherwise")
+    a("  deriving DecidableEq, Repr")
+    a("")
+    a(f"def udpBind : BindRule := .{g['udpBind']}")
     a("")
     a("end AnyTLS.Gen")
     return "\n".join(L) + "\n"
